@@ -389,7 +389,36 @@ pub struct Reply {
 pub fn reply_frame(id: SeqId, r: &Reply) -> Vec<u8> {
     let m = r.marker;
     match r.cf {
+        // markers 6 and 14 (mod 16) select the smallest and the most decorated legal form of a packet:
+        // empty texts, empty containers, only the mandatory field / trailing TLV containers
+        CF_INTERMEDIATE if m % 16 == 14 => {
+            // status, time-out, TLV container with display texts (tag 24 { 07 line, 07 line })
+            let lines = Tlv::cons(0x24, vec![Tlv::prim(0x07, format!("Bitte warten {m}").as_bytes()), Tlv::prim(0x07, b"")]);
+            let mut body = vec![m, 0x15];
+            let t = lines.encode();
+            body.push(0x06);
+            body.extend(rc::ber_len(t.len()));
+            body.extend(t);
+            rc::apdu((0x04, 0xff), &body)
+        }
         CF_INTERMEDIATE => rc::intermediate(m, if m % 3 == 0 { Some(m % 100) } else { None }),
+        CF_STATUS if m % 16 == 6 => rc::status_info(&rc::Status { result_code: Some(0), ..rc::Status::default() }),
+        CF_PRINT_LINE if m % 16 == 6 => rc::print_line(m, b""),
+        CF_PRINT_BLOCK if m % 16 == 6 => rc::print_text_block(m % 4, &[]),
+        CF_PRINT_BLOCK if m % 16 == 14 => rc::print_text_block(m % 4, &[b"first".to_vec(), vec![], b"x".to_vec(), vec![]]),
+        CF_ABORT if m % 16 == 14 => {
+            // result code [currency] TLV container { 1F16 extended code, 1F17 text } (ZVT 2.2.9 form)
+            let mut body = vec![m];
+            if matches!(id, SeqId::Reservation | SeqId::Authorization) {
+                body.extend([0x09, 0x78]);
+            }
+            let mut t = Tlv::prim(0x1f16, &[0x05]).encode();
+            t.extend(Tlv::prim(0x1f17, b"Karte nicht zugelassen").encode());
+            body.push(0x06);
+            body.extend(rc::ber_len(t.len()));
+            body.extend(t);
+            rc::apdu((0x06, 0x1e), &body)
+        }
         // every eighth marker makes the packet long enough for the extended
         // (5-byte) APDU header and for 2-/3-byte BER lengths
         CF_STATUS => rc::status_info(&rc::Status {
